@@ -99,7 +99,7 @@ func resolveLockRoles(c *Ctx) *lockRoles {
 		return ok && b.Kind() == types.String
 	})
 	r.tokenF = c.oneField("locker.token", r.locker, func(f *types.Var) bool { _, ok := f.Type().Underlying().(*types.Chan); return ok })
-	r.timerF = c.oneField("locker.timer", r.locker, func(f *types.Var) bool { return ir.IsNamed(f.Type(), "sync/atomic", "Value") })
+	r.timerF = c.oneFieldDeep("locker.timer", r.locker, func(f *types.Var) bool { return ir.IsNamed(f.Type(), "sync/atomic", "Value") })
 	lm := func(name string) *ssa.Function { return c.RequireFn(c.P.MethodOf(r.locker, name), "locker."+name) }
 	r.tryLock, r.lock, r.lockCtx, r.unlock = lm("TryLock"), lm("Lock"), lm("LockWithCtx"), lm("Unlock")
 	// held flag: the int32 field passed to CompareAndSwapInt32(.,1,0) in Unlock
@@ -431,6 +431,31 @@ func (c *Ctx) acquirePath(r *lockRoles, fn *ssa.Function) (bool, string, ssa.Ins
 		return false, "undecided: " + err.Error(), nil
 	}
 	if w != nil {
+		// the same question per path, with phi operands resolved by the path and == nil / != nil on one value identified:
+		// a loop that is left by break with the error in a variable, and tests that variable once behind the loop
+		pq := ir.PathQuery{Fn: fn, Target: func(in ssa.Instruction, val *ir.Valuation) bool {
+			if !target(in) {
+				return false
+			}
+			ret := in.(*ssa.Return)
+			if rs := fn.Signature.Results(); rs.Len() > 0 && ir.IsErrorType(rs.At(rs.Len()-1).Type()) {
+				if isNil, known := val.KnownIsNil(ret.Results[rs.Len()-1]); known && !isNil {
+					return false // a failure exit on this path
+				}
+			}
+			for _, a := range acqCalls {
+				if e := errOf(a); e != nil {
+					if isNil, known := val.KnownIsNil(e); known && isNil {
+						return false // the acquisition succeeded on this path
+					}
+				}
+			}
+			return true
+		}}
+		w2, err2 := pq.Find()
+		if err2 == nil && w2 == nil {
+			return true, "", nil
+		}
 		return false, w.String(c.P), w.End
 	}
 	return true, "", nil
